@@ -100,6 +100,19 @@ func buildReal(v int) (types.TemplateManager, error) {
 
 var errBuild = errors.New("build failed")
 
+// buildRealFailing: the library's own manager on a file system with a directory that cannot be read — the idiom
+// `return m, m.ParseWithSuffix(fsys, ...)`.  The build must FAIL (Parse returns the walk's error); if Parse swallowed it
+// the builder would report success and the renderer would publish the partial set.
+func buildRealFailing(v int) (types.TemplateManager, error) {
+	m := html.NewTplManager()
+	fsys := &traceFS{inner: fstest.MapFS{"t": &fstest.MapFile{Data: []byte(fmt.Sprintf("v%d", v))},
+		"parts/nav.t": &fstest.MapFile{Data: []byte("nav")}, "zz/last.t": &fstest.MapFile{Data: []byte("last")}}, fault: map[string]int{"parts": 3}}
+	if err := m.ParseWithSuffix(fsys, "t"); err != nil {
+		return realMgr{m, -v}, errors.Join(errBuild, err)
+	}
+	return realMgr{m, v}, nil
+}
+
 // buildFailure: what a failing build returns — the marker error joined with the kinds of error real builders produce
 // (a vanished directory, a permission problem, a truncated file, a cancelled context, even a template-not-found error)
 func buildFailure(k int) error {
@@ -137,6 +150,9 @@ func runReloadHistory(hot bool, first bool, ops string) (line string, c18 string
 				return &fakeMgrPtr{calls}, nil
 			}
 			return fakeMgr{calls}, nil
+		}
+		if calls%3 == 2 {
+			return buildRealFailing(calls)
 		}
 		if calls%2 == 1 {
 			// the idiom `return m, m.ParseWithSuffix(...)`: a failed build hands back a half-built, non-nil manager
